@@ -330,10 +330,10 @@ END { print "L" mark(); w(); %TAIL% }`, 0, "async"},
 END { %TAIL% }`, 4, "async"},
 	// a background grandchild keeps the command's stdout/stderr open after the command is killed:
 	// the call must still return (goawk bounds its wait for the output copier)
-	{"system-grandchild-holds-pipe", `BEGIN { print "L" mark(); pre(); r = system("spawnhold:70000;mark:%MARK%;block"); post(); %TAIL% }`, 0, "async"},
-	{"pipe-close-grandchild-holds-pipe", `BEGIN { print "L" mark(); pre(); print "x" | "spawnhold:70000;mark:%MARK%;block"; r = close("spawnhold:70000;mark:%MARK%;block"); post(); %TAIL% }`, 0, "async"},
+	{"system-grandchild-holds-pipe", `BEGIN { print "L" mark(); pre(); r = system("spawnhold:%HOLD%;mark:%MARK%;block"); post(); %TAIL% }`, 0, "async"},
+	{"pipe-close-grandchild-holds-pipe", `BEGIN { print "L" mark(); pre(); print "x" | "spawnhold:%HOLD%;mark:%MARK%;block"; r = close("spawnhold:%HOLD%;mark:%MARK%;block"); post(); %TAIL% }`, 0, "async"},
 	// the same with standard output being a file of the caller: only the error stream goes through a copier
-	{"system-grandchild-holds-stderr", `BEGIN { print "L" mark(); pre(); r = system("spawnhold:70000;mark:%MARK%;block"); post(); %TAIL% }`, 0, "async"},
+	{"system-grandchild-holds-stderr", `BEGIN { print "L" mark(); pre(); r = system("spawnhold:%HOLD%;mark:%MARK%;block"); post(); %TAIL% }`, 0, "async"},
 	{"two-children", `BEGIN { print "L" mark(); pre(); print "x" | "%CMD%"; "block" | getline y; post(); %TAIL% }`, 0, "async"},
 }
 
